@@ -22,6 +22,13 @@ func (group *Group) startHlsIfNeeded() {
 		return
 	}
 
+	// 注意，流名称由对端指定（比如".."），hls的输出目录必须位于配置的根目录之内，否则不开启hls
+	rootOutPath := group.config.HlsConfig.MuxerConfig.OutPath
+	if !hls.IsInsideRootOutPath(rootOutPath, hls.PathStrategy.GetMuxerOutPath(rootOutPath, group.streamName)) {
+		Log.Errorf("[%s] hls out path of stream is not inside the root out path, hls disabled. streamName=%s", group.UniqueKey, group.streamName)
+		return
+	}
+
 	group.hlsMuxer = hls.NewMuxer(group.streamName, &group.config.HlsConfig.MuxerConfig, group)
 	group.hlsMuxer.Start()
 }
